@@ -9,3 +9,83 @@ Definition C02_reachable_full : Prop :=
 Theorem C02_inv_init : forall min_len, Inv (init min_len).
 Proof. exact inv_init. Qed.
 Print Assumptions C02_inv_init.
+
+From Anydb Require Import Rawdb.InvCreate Rawdb.InvStep Rawdb.InvFinal.
+
+(* every operation preserves the extent invariant (a panicking call leaves the state alone) *)
+Theorem C02_inv_step : forall s o, Inv s -> op_fits s o -> op_defined s o -> Inv (fst (step_total s o)).
+Proof. exact c02_inv_step. Qed.
+Print Assumptions C02_inv_step.
+
+(* stronger: no side condition at all (op_fits / op_defined are not needed for preservation) *)
+Theorem C02_inv_step_strong : forall s o, Inv s -> Inv (fst (step_total s o)).
+Proof. exact inv_step. Qed.
+Print Assumptions C02_inv_step_strong.
+
+Theorem C02_reachable : C02_reachable_full.
+Proof. exact c02_reachable_full. Qed.
+Print Assumptions C02_reachable.
+
+Theorem C02_reachable_strong : forall min_len ops, Inv (run (init min_len) ops).
+Proof. exact inv_reachable. Qed.
+Print Assumptions C02_reachable_strong.
+
+(* the property text, explicit: distinct live regions have disjoint extents ... *)
+Theorem C02_regions_disjoint : forall s i j mi mj,
+  Inv s -> i <> j -> slot s i = Some mi -> slot s j = Some mj ->
+  r_start mi + r_reserved mi <= r_start mj \/ r_start mj + r_reserved mj <= r_start mi.
+Proof. exact inv_regions_disjoint. Qed.
+Print Assumptions C02_regions_disjoint.
+
+(* ... each page-aligned, non-empty, holding its data, inside the file ... *)
+Theorem C02_region_shape : forall s i m,
+  Inv s -> slot s i = Some m ->
+  r_start m mod PAGE_SIZE = 0 /\ r_reserved m mod PAGE_SIZE = 0 /\ 0 < r_reserved m /\
+  r_len m <= r_reserved m /\ r_start m + r_reserved m <= file_len s.
+Proof. exact inv_region_shape. Qed.
+Print Assumptions C02_region_shape.
+
+(* ... and every address below layout_len is owned by exactly one extent (live region, hole,
+   pending hole or reservation), none at or above it: free space is fully accounted *)
+Theorem C02_exact_cover : forall s a,
+  Inv s -> owners (extents s) a = if a <? layout_len s then 1%nat else 0%nat.
+Proof. exact inv_exact_cover. Qed.
+Print Assumptions C02_exact_cover.
+
+(* reuse: a placement (creation or relocation) that happens while a hole of at least the new
+   reserve exists does not grow the allocated area *)
+Theorem C02_reuse : forall s o s' r i m',
+  Inv s -> step s o = AOk (s', r) -> placed s s' i -> slot s' i = Some m' -> has_hole_for s (r_reserved m') ->
+  layout_len s' = layout_len s.
+Proof. exact step_reuse. Qed.
+Print Assumptions C02_reuse.
+
+(* the hypotheses are satisfiable: a reachable state with two live regions (one relocated), a
+   two-page hole, after flush/compact/reopen; and an instance of the reuse clause *)
+Theorem C02_example_state : Inv ex_state.
+Proof. exact ex_state_inv. Qed.
+Print Assumptions C02_example_state.
+
+Theorem C02_example_reuse :
+  has_hole_for ex_state PAGE_SIZE /\
+  placed ex_state (fst (step_total ex_state (Create 9 false))) 2 /\
+  layout_len (fst (step_total ex_state (Create 9 false))) = layout_len ex_state.
+Proof. exact ex_reuse. Qed.
+Print Assumptions C02_example_reuse.
+
+From Anydb Require Import Rawdb.InvBool Rawdb.InvBool2.
+
+(* the executable checker (extractable; never calls N.to_nat on state data) decides the invariant:
+   evaluated on an allocator state reconstructed from the implementation, `true` certifies Inv
+   and `false` is a proven violation *)
+Theorem C02_inv_b_sound : forall s, inv_b s = true -> Inv s.
+Proof. exact inv_b_sound. Qed.
+Print Assumptions C02_inv_b_sound.
+
+Theorem C02_inv_b_spec : forall s, inv_b s = true <-> Inv s.
+Proof. exact inv_b_iff. Qed.
+Print Assumptions C02_inv_b_spec.
+
+Theorem C02_inv_b_reachable : forall min_len ops, inv_b (run (init min_len) ops) = true.
+Proof. exact inv_b_reachable. Qed.
+Print Assumptions C02_inv_b_reachable.
